@@ -156,7 +156,8 @@ def work_generated(ctx, seed):
 def work_patho(ctx, seed):
     import random
     rng = random.Random(seed)
-    which = [gen.patho_dup_function, gen.patho_mixed_fused, gen.patho_contraction_on_free, gen.patho_spd_free_low][seed % 4]
+    pool = [f for f in gen.PATHOLOGICAL if f not in (gen.patho_spd, gen.patho_pd_fused)]
+    which = pool[seed % len(pool)]
     check_direct(ctx, which(rng), 'patho:%s:%d' % (which.__name__, seed), 'patho:' + which.__name__)
 
 
